@@ -20,3 +20,37 @@ Theorem C01_hub_dial_only_trusted_or_queued :
     In k (dials_of (snd (hstep C h l))) -> (s_trusted (get h k) || queued (get h k)) = true.
 Proof. intros C h l k H. exact (proj1 (proj2 (dial_step C h l k H))). Qed.
 Print Assumptions C01_hub_dial_only_trusted_or_queued.
+
+(* "after the user cancelled it" / unpaired it, at the hub: CancelPairingWithSKI(k) and
+   UnregisterRemoteSKI(k), in any state, leave k untrusted, not queued and without attempt
+   counter, and the registered connection is aborted resp. told to close ... *)
+Theorem C01_hub_cancel_withdraws_trust :
+  forall (C : cfg) (h : hub) (k : N),
+    let h' := fst (hstep C h (LCancel k)) in
+    let o := snd (hstep C h (LCancel k)) in
+    s_trusted (get h' k) = false /\ s_pst (get h' k) = ConnectionStateNone /\ s_counter (get h' k) = None
+    /\ may_dial (get h' k) = false
+    /\ (forall c, s_reg (get h k) = Some c -> In (OAbort c) o).
+Proof. exact cancel_effect. Qed.
+Print Assumptions C01_hub_cancel_withdraws_trust.
+
+Theorem C01_hub_unregister_withdraws_trust :
+  forall (C : cfg) (h : hub) (k : N),
+    let h' := fst (hstep C h (LUnregister k)) in
+    let o := snd (hstep C h (LUnregister k)) in
+    s_trusted (get h' k) = false /\ s_pst (get h' k) = ConnectionStateNone /\ s_counter (get h' k) = None
+    /\ may_dial (get h' k) = false
+    /\ (forall c, s_reg (get h k) = Some c -> In (OClose c true 4500) o).
+Proof. exact unregister_effect. Qed.
+Print Assumptions C01_hub_unregister_withdraws_trust.
+
+(* ... and from a state in which k may not be dialled, for every continuation of any length
+   that does not grant trust to k again (no RegisterRemoteSKI(k), no hello-ok report for k):
+   no dial to k ever starts - the hub only initiates connections to SKIs the user registered *)
+Theorem C01_hub_no_dial_without_registration :
+  forall (C : cfg) (k : N) (ls : list label) (h : hub),
+    may_dial (get h k) = false ->
+    (forall l, In l ls -> regrants l k = false) ->
+    ~ In k (dials_of (snd (hrun C h ls))) /\ may_dial (get (fst (hrun C h ls)) k) = false.
+Proof. exact no_grant_no_dial. Qed.
+Print Assumptions C01_hub_no_dial_without_registration.
